@@ -229,7 +229,10 @@ def dropHandle (s : St) (a : Nat) : E St :=
   match s.getAlloc a with
   | none => .error .ub
   | some l =>
-    if l.rc ≤ 1 then .ok { (s.setAlloc a none) with live := s.live - l.len }
+    if l.rc ≤ 1 then
+      -- `Drop for RawList`: the generated loop range says how many elements are dropped
+      .ok { (s.setAlloc a none) with
+              live := s.live - (if Gen.ListGuards.drop_runs_element_drops then Gen.ListGuards.drop_count l.view else 0) }
     else .ok (s.setAlloc a (some { l with rc := l.rc - 1 }))
 
 /-- `slot[d] = <handle to a>`: the old value of the variable is dropped afterwards -/
@@ -330,7 +333,9 @@ def concatStep (sz x y : Nat) (c : St × Option Nat) : CStep → E (St × Option
         else
           match rawExtend sz ln lr with
           | .error f => .error f
-          | .ok ln' => .ok ({ (c.1.setAlloc n (some ln')) with live := c.1.live + lr.len }, c.2)
+          | .ok ln' =>
+            .ok ({ (c.1.setAlloc n (some ln')) with
+                     live := c.1.live + Gen.ListGuards.extend_clone_count ln.view lr.view }, c.2)
       | _, _ => .error .ub
   | .unlock r =>
     match unlockAt c.1 (resolve x y r) with
